@@ -47,7 +47,10 @@ INITIAL_MISSED = {"C01-m1", "C03-m2", "C04-m1", "C05-m1", "C08-m1", "C09-m1", "C
                   # thirteenth round (hardening gone wrong, internal parallelism / batching)
                   "C02-r13m2", "C02-r13m3", "C04-r13m3", "C05-r13m2", "C06-r13m2", "C07-r13m1", "C07-r13m3", "C08-r13m1", "C08-r13m2",
                   "C08-r13m3", "C09-r13m2", "C10-r13m1", "C10-r13m3", "C12-r13m1", "C12-r13m3", "C14-r13m1", "C15-r13m1", "C15-r13m3",
-                  "C16-r13m3", "C18-r13m2", "C20-r13m3"}
+                  "C16-r13m3", "C18-r13m2", "C20-r13m3",
+                  # fourteenth round (free style: most likely to escape)
+                  "C02-r14m1", "C05-r14m1", "C06-r14m1", "C06-r14m2", "C07-r14m2", "C08-r14m1", "C09-r14m1", "C10-r14m1", "C11-r14m1",
+                  "C12-r14m1", "C13-r14m1", "C14-r14m1", "C15-r14m1", "C17-r14m1", "C19-r14m1"}
 # --seed N: run at another VERIF_SEED and only print the verdicts (meta.json untouched) - finds catches that depend on luck
 args = sys.argv[1:]
 seed = None
